@@ -246,7 +246,11 @@ pub fn judge(
             Next::Same => tree::diff(real, pre, strict.cmp),
             Next::State(t) => {
                 let mut ds = tree::diff(real, t, strict.cmp);
-                ds.retain(|d| !(d.what == "mode" && a.free_mode.contains(&d.path)) && !(d.what == "content" && a.free_data.contains(&d.path)));
+                ds.retain(|d| {
+                    !(d.what == "mode" && a.free_mode.contains(&d.path))
+                        && !(d.what == "content" && a.free_data.contains(&d.path))
+                        && !(d.what == "link-kind" && a.free_kind.contains(&d.path))
+                });
                 ds
             },
             Next::Resync(roots) => {
